@@ -802,6 +802,48 @@ func c12Dists(c *Ctx, p *Prog) {
 			c.Check(ok, R, "NormalDist.CDF", site, "Phi(x) = erfc(-(x-mu)/(sigma·sqrt2))/2", "normal CDF: "+d)
 		}
 	}
+	// normal density: exp(-(x-mu)^2/(2 sigma^2)) / (sigma sqrt(2 pi)) — the 1/sigma makes it the derivative of the CDF
+	if fn := p.Method("internal/stats", "NormalDist", "PDF"); fn != nil {
+		site := p.pos(fn.Pos())
+		outs, why := e6Enumerate(func() *e6Interp { return &e6Interp{PureCall: func(f *types.Func) bool { return true }} }, fn.Blocks[0], nil, nil, 16)
+		if why != "" || len(outs) != 1 {
+			c.Undecided(R, "NormalDist.PDF", site, "cannot evaluate")
+		} else {
+			leaf := func(s *Sym) string {
+				str := s.String()
+				switch {
+				case s.Op == "param" && s.Name == "x":
+					return "x"
+				case strings.HasSuffix(str, ".Mu") || strings.HasSuffix(str, ".Mu)"):
+					return "mu"
+				case strings.HasSuffix(str, ".Sigma") || strings.HasSuffix(str, ".Sigma)"):
+					return "sigma"
+				}
+				return ""
+			}
+			pts := []map[string]*big.Rat{{"x": rat(7, 3), "mu": rat(1, 2), "sigma": rat(5, 4)}, {"x": rat(-2, 1), "mu": rat(3, 1), "sigma": rat(7, 2)}}
+			ok, d := false, ""
+			for _, k := range []*big.Rat{new(big.Rat).SetFloat64(1 / math.Sqrt(2*math.Pi)), func() *big.Rat {
+				if co, isC := p.Obj("internal/stats", "invSqrt2Pi").(*types.Const); isC {
+					if r, good := new(big.Rat).SetString(co.Val().ExactString()); good {
+						return r
+					}
+				}
+				return new(big.Rat).SetFloat64(1 / math.Sqrt(2*math.Pi))
+			}()} {
+				k := k
+				ok, d = ufEqual(outs[0].Results[0], func(g func(string) *big.Rat) *big.Rat {
+					z := rSub(g("x"), g("mu"))
+					arg := rQuo(new(big.Rat).Neg(rMul(z, z)), rMul(rat(2, 1), rMul(g("sigma"), g("sigma"))))
+					return rQuo(rMul(uf("Exp", arg), k), g("sigma"))
+				}, pts, leaf)
+				if ok {
+					break
+				}
+			}
+			c.Check(ok, R, "NormalDist.PDF", site, "phi(x) = exp(-(x-mu)^2/(2 sigma^2)) / (sigma sqrt(2 pi))", "normal density: "+d+" — a density without the 1/sigma factor does not integrate to the CDF for sigma != 1")
+		}
+	}
 	// incomplete beta
 	if fn := p.Fn("internal/stats", "mathBetaInc"); fn != nil {
 		site := p.pos(fn.Pos())
